@@ -315,6 +315,19 @@ fn go_package_alias(package_path: &str) -> String {
     alias
 }
 
+// The qualifier used for an extern package (`go_package_alias`) is the last path segment made into
+// an identifier. When that differs from the segment itself (`gopkg.in/yaml.v3` -> `yaml_v3`,
+// `example.com/9p` -> `_9p`) the import has to bind that name explicitly.
+fn go_import_alias(package_path: &str) -> Option<String> {
+    let alias = go_package_alias(package_path);
+    let last_segment = package_path.rsplit('/').next().unwrap_or(package_path);
+    if alias == last_segment {
+        None
+    } else {
+        Some(alias)
+    }
+}
+
 fn substitute_ty_params(ty: &tast::Ty, subst: &HashMap<String, tast::Ty>) -> tast::Ty {
     match ty {
         tast::Ty::TVar(_)
@@ -2281,7 +2294,7 @@ pub fn go_file(
         for extern_fn in goenv.genv.value_env.extern_funcs.values() {
             if existing_imports.insert(extern_fn.package_path.clone()) {
                 extra_specs.push(goast::ImportSpec {
-                    alias: None,
+                    alias: go_import_alias(&extern_fn.package_path),
                     path: extern_fn.package_path.clone(),
                 });
             }
@@ -2291,7 +2304,7 @@ pub fn go_file(
                 && existing_imports.insert(package_path.clone())
             {
                 extra_specs.push(goast::ImportSpec {
-                    alias: None,
+                    alias: go_import_alias(package_path),
                     path: package_path.clone(),
                 });
             }
